@@ -142,17 +142,22 @@ class Scenario:
     def url(self, k):
         return self.h.origin.url(self.sid, "k%d" % k)
 
+    def new_version(self, k, n, seed, hv):
+        """the dates of a version are fixed when the origin gets it (the cached copy must reproduce them)"""
+        self.cur[k] = self.cur.get(k, 0) + 1
+        self.vers[(k, self.cur[k])] = (n, seed, hv, rig.date_now(86400), rig.date_now(-864000 - self.cur[k]))
+
     def obj(self, k, ver):
-        n, seed, hv = self.vers[(k, ver)]
+        n, seed, hv, d_exp, d_lm = self.vers[(k, ver)]
         tag = b"[%s k%d v%d]" % (self.sid.encode(), k, ver)
         b = body(n, seed, tag)
         hd = [("ETag", '"%s-k%d-v%d"' % (self.sid, k, ver)), ("X-Ver", "k%dv%d" % (k, ver))]
         if hv in (0, 1, 3):
             hd.append(("Cache-Control", "max-age=86400"))
         if hv == 2:
-            hd.append(("Expires", rig.date_now(86400)))
+            hd.append(("Expires", d_exp))
         if hv in (1, 2):
-            hd.append(("Last-Modified", rig.date_now(-864000 - ver)))
+            hd.append(("Last-Modified", d_lm))
             hd.append(("X-Pad", "p" * (50 + 37 * ver)))
         if CTYPES[hv]:
             hd.append(("Content-Type", CTYPES[hv]))
@@ -164,8 +169,7 @@ class Scenario:
         if req["first"].startswith("DELETE "):
             return [("send", rig.simple_response(200, b"deleted", [("Cache-Control", "no-store")]))]
         if k not in self.cur:
-            self.cur[k] = 1
-            self.vers[(k, 1)] = (100 + 7 * k, 11 + k, 0)
+            self.new_version(k, 100 + 7 * k, 11 + k, 0)
         b, hd, chunked = self.obj(k, self.cur[k])
         if chunked:
             head = rig.simple_response(200, b"", hd + [("Transfer-Encoding", "chunked")], cl=False)
@@ -209,8 +213,7 @@ class Scenario:
         c, k = op[0], op[1]
         before = len(self.h.origin.requests(self.sid))
         if c == "S":
-            self.cur[k] = self.cur.get(k, 0) + 1
-            self.vers[(k, self.cur[k])] = (op[2], op[3], op[4])
+            self.new_version(k, op[2], op[3], op[4])
             r = self.get(k, [("Cache-Control", "no-cache")])
             if r is None or r["status"] != 200:
                 return "S=fail%s" % (r["status"] if r else "")
